@@ -388,6 +388,54 @@ Proof.
       exists (x :: made). rewrite Hf, <- app_assoc. split; [reflexivity|]. exists rest. split; [rewrite Hr; reflexivity|exact Hu].
 Qed.
 
+
+(* ---------------------------------------------------------------- into_iter / splice / map_in_place / append *)
+Theorem into_iter_conserved dp l kf kb : conserved (op_into_iter dp l kf kb) l.
+Proof. unfold op_into_iter. apply drain_conserved. discriminate. Qed.
+
+Theorem into_iter_leaves_nothing dp l kf kb : final (op_into_iter dp l kf kb) = [].
+Proof.
+  unfold op_into_iter, op_drain. replace ((length l <? 0) || (length l <? length l)) with false
+    by (symmetry; apply orb_false_iff; split; apply Nat.ltb_ge; lia).
+  cbn [firstn skipn app]. destruct (drop_all dp _). cbn. rewrite skipn_all. reflexivity.
+Qed.
+
+Theorem splice_conserved dp l a b repl take : conserved (op_splice dp l a b repl take) (l ++ repl).
+Proof.
+  unfold op_splice, conserved.
+  destruct ((b <? a) || (length l <? b)) eqn:Eg; [cbn [final yielded dropped app]; reflexivity|].
+  apply orb_false_iff in Eg. destruct Eg as [E1 E2]. apply Nat.ltb_ge in E1, E2.
+  cbn [drop_all final yielded dropped].
+  set (rng := firstn (b - a) (skipn a l)). set (t := Nat.min take (length rng)).
+  assert (Hsplit : l = firstn a l ++ rng ++ skipn b l).
+  { unfold rng. rewrite <- (firstn_skipn a l) at 1. f_equal.
+    rewrite <- (firstn_skipn (b - a) (skipn a l)) at 1. f_equal. rewrite skipn_skipn. f_equal. lia. }
+  assert (Hr : rng = firstn t rng ++ skipn t rng) by (symmetry; apply firstn_skipn).
+  assert (C1 : forall z, count_occ Nat.eq_dec l z =
+             count_occ Nat.eq_dec (firstn a l) z + count_occ Nat.eq_dec rng z + count_occ Nat.eq_dec (skipn b l) z).
+  { intros z. rewrite Hsplit at 1. rewrite !count_occ_app. lia. }
+  assert (C2 : forall z, count_occ Nat.eq_dec rng z =
+             count_occ Nat.eq_dec (firstn t rng) z + count_occ Nat.eq_dec (skipn t rng) z).
+  { intros z. rewrite Hr at 1. rewrite count_occ_app. lia. }
+  apply (Permutation_count_occ Nat.eq_dec). intros z. rewrite !count_occ_app, (C1 z), (C2 z). lia.
+Qed.
+
+Theorem splice_spec dp l a b repl take : a <= b <= length l ->
+  final (op_splice dp l a b repl take) = firstn a l ++ repl ++ skipn b l.
+Proof.
+  intros H. unfold op_splice.
+  replace ((b <? a) || (length l <? b)) with false by (symmetry; apply orb_false_iff; split; apply Nat.ltb_ge; lia).
+  cbn [drop_all]. reflexivity.
+Qed.
+
+Theorem map_in_place_conserved l k : conserved (op_map_in_place l k) l.
+Proof.
+  unfold op_map_in_place, conserved. destruct k as [k|]; [destruct (k <? length l)|]; cbn; rewrite ?app_nil_r; reflexivity.
+Qed.
+
+Theorem append_conserved l other : conserved (op_append l other) (l ++ other).
+Proof. unfold op_append, conserved. cbn. rewrite !app_nil_r. reflexivity. Qed.
+
 (* mirroring keeps conservation (MutBumpVecRev) *)
 Theorem mirror_conserved o input : conserved o input -> conserved (mirror o) input.
 Proof.
